@@ -3,6 +3,7 @@ import Props.C02
 import Props.C01
 import DroopProofs.MeekMon
 import DroopProofs.CaseInitMeek
+import DroopProofs.PrfMon
 /-!
 # C09 — candidate status only moves forward; seats are never over-committed
 
@@ -15,6 +16,8 @@ recorded.
 
 * meek / warren (strict rankings): `meek_record_forward` — whatever the count returns for a case inside `caseOK`, its record is
   forward-only and its log extends the log it started with (`DroopProofs/MeekMon.lean`).
+
+* meek-prf: `prf_record_forward` — the same, asking only for distinct candidate ids (`DroopProofs/PrfMon.lean`).
 
 QPQ's restart ("un-elect") is outside these theorems: the QPQ record is judged by `okC09` on both records only.
 -/
@@ -56,5 +59,13 @@ theorem meek_record_forward (p : Nat) (c : Case) (hr : c.rule = "meek" ∨ c.rul
   · simp only [runRuleSt', hr] at h
     exact ⟨meek_record_monotone (fixedArith p) (fixed_lawful p) rfl _ _ _ t h0 h,
       meek_record_appendOnly (fixedArith p) (fixed_lawful p) rfl _ _ _ t h0 h⟩
+
+/-- meek-prf: the record of whatever the count returns is forward-only (every case with distinct candidate ids) -/
+theorem prf_record_forward (p : Nat) (c : Case) (hr : c.rule = "meek-prf") (hnd : (c.cands.map (·.1)).Nodup)
+    (t : St Int) (h : runRuleSt (fixedArith p) c = some t) : Mon t := by
+  unfold runRuleSt at h
+  simp only [runRuleSt', hr] at h
+  have hwf : (initState (fixedArith p) c).WF := by unfold St.WF; rw [initState_cids]; exact hnd
+  exact prf_record_monotone (fixedArith p) (fixed_lawful p) _ _ t rfl hwf h
 
 end Droop.C09
